@@ -31,13 +31,16 @@ Record variant := mkV {
   d5 : bool;   (* AAA addresses outside every pool are not recorded *)
   d7 : bool;   (* the unresolved answer dereferences a nil pool (panic) when the lease address is in no provider
                   pool network; fixed: error, no answer *)
+  d9 : bool;   (* the containment walk of Reserve* and the AAA pool override ignore the subscriber's VRF *)
   d8 : bool;   (* restore keeps an address of the persisted image although re-reserving it conflicted (only logged) *)
   d6 : bool    (* component level only (used by the stage-B event mapping in ocaml/C02_run.ml, not by [step]):
                   a REQUEST that waited for AAA / session creation is ACKed by forwardPendingDHCPv4 /
                   forwardLatePendingPackets without handleAck, so the session does not record the address *)
 }.
-Definition Repaired : variant := mkV false false false false false false false false.
-Definition Defective : variant := mkV true true true true true true true true.
+Definition Repaired : variant := mkV false false false false false false false false false.
+(* the code at /repo HEAD: constant fall-back (1), expiry take-over (3), pending ACK (6), nil pool (7) are fixed *)
+Definition Head : variant := mkV false true false true true false true true false.
+Definition Defective : variant := mkV true true true true true true true true true.
 Inductive fam := F4 | F6 | FD.
 Definition fam_eqb (a b : fam) : bool :=
   match a, b with F4, F4 | F6, F6 | FD, FD => true | _, _ => false end.
@@ -178,11 +181,12 @@ Definition alloc_walk (f : fam) (prof vrf s : N) (r : reg) : list (reg * option 
   | Some p => alloc_in r p s
   | None => [(r, None)]
   end.
-Definition alloc_from_profile (f : fam) (prof : N) (ov : option N) (vrf s : N) (r : reg)
+Definition alloc_from_profile (v : variant) (f : fam) (prof : N) (ov : option N) (vrf s : N) (r : reg)
   : list (reg * option (item * N)) :=
   match ov with
   | Some k =>
-      match find (fun p => (p_prof p =? prof) && (p_key p =? k)) (fam_pools f r) with
+      (* R9 (Repaired): an override naming a pool of another VRF is ignored *)
+      match find (fun p => (p_prof p =? prof) && (p_key p =? k) && (d9 v || (p_vrf p =? vrf))) (fam_pools f r) with
       | Some p => if isnil (p_free p) then alloc_walk f prof vrf s r else alloc_in r p s
       | None => alloc_walk f prof vrf s r
       end
@@ -200,7 +204,8 @@ Definition reserve_in (r : reg) (p : pool) (x : item) (s : N) : reg * bool :=
   | None => (r, true)
   end.
 Definition reserve_cont (v : variant) (f : fam) (x : item) (vrf s : N) (r : reg) : list (reg * bool) :=
-  match filter (fun p => contains p x) (fam_pools f r) with
+  (* R9 (Repaired): only pools of the subscriber's VRF are candidates *)
+  match filter (fun p => contains p x && (d9 v || (p_vrf p =? vrf))) (fam_pools f r) with
   | [] =>
       if d5 v then [(r, true)]
       else match sassoc (f, vrf, x) (statics r) with
@@ -465,7 +470,7 @@ Definition acquire (v : variant) (f : fam) (prof : option N) (ov : option N) (vr
           map (fun c => match c with
                         | (r', Some (x, k)) => (r', Some x, Some k, true)
                         | (r', None) => (r', None, None, true)
-                        end) (alloc_from_profile f pf ov vrf sid r)
+                        end) (alloc_from_profile v f pf ov vrf sid r)
       end
   | Some x =>
       map (fun c : reg * bool => let (r', ok) := c in (r', Some x, None, ok)) (reserve_cont v f x vrf sid r)
